@@ -15,20 +15,28 @@ vars == <<c>>
 (* ------------------------------ tiles ------------------------------ *)
 \* source tiles: level 0, level 2 (asymmetric), level 31 corner; payload ids distinct
 SrvTiles == { <<0, 0, 0, 1>>, <<2, 1, 0, 2>>, <<2, 3, 2, 3>>, <<2, 0, 3, 4>>, <<31, 2147483647, 2147483647, 5>>, <<9, 256, 255, 6>> }
-Sources == <<
-    [id |-> "vpn", fmt |-> "versatiles", tf |-> "pbf", tc |-> "none"],
-    [id |-> "vpg", fmt |-> "versatiles", tf |-> "pbf", tc |-> "gzip"],
-    [id |-> "vpb", fmt |-> "versatiles", tf |-> "pbf", tc |-> "brotli"],
-    [id |-> "vpng", fmt |-> "versatiles", tf |-> "png", tc |-> "none"],
-    [id |-> "vjpg", fmt |-> "versatiles", tf |-> "jpg", tc |-> "none"],
-    [id |-> "vwebp", fmt |-> "versatiles", tf |-> "webp", tc |-> "none"],
+\* kind = how the source is named on the command line; sid = the id requests have to use (ServedId)
+RawSources == <<
+    [id |-> "vpn", fmt |-> "versatiles", tf |-> "pbf", tc |-> "none", kind |-> "prefix"],
+    [id |-> "vpg", fmt |-> "versatiles", tf |-> "pbf", tc |-> "gzip", kind |-> "suffix"],
+    [id |-> "vpb", fmt |-> "versatiles", tf |-> "pbf", tc |-> "brotli", kind |-> "hash"],
+    [id |-> "vpng", fmt |-> "versatiles", tf |-> "png", tc |-> "none", kind |-> "plain"],
+    [id |-> "vjpg", fmt |-> "versatiles", tf |-> "jpg", tc |-> "none", kind |-> "prefix"],
+    [id |-> "vwebp", fmt |-> "versatiles", tf |-> "webp", tc |-> "none", kind |-> "hash"],
     \* raster tiles stored compressed (unusual, but every stored compression x raster/vector is quantified over)
-    [id |-> "vpngg", fmt |-> "versatiles", tf |-> "png", tc |-> "gzip"],
-    [id |-> "vjpgb", fmt |-> "versatiles", tf |-> "jpg", tc |-> "brotli"],
-    [id |-> "twebpg", fmt |-> "tar", tf |-> "webp", tc |-> "gzip"],
-    [id |-> "mb", fmt |-> "mbtiles", tf |-> "pbf", tc |-> "gzip"],
-    [id |-> "pm", fmt |-> "pmtiles", tf |-> "pbf", tc |-> "gzip"],
-    [id |-> "tarsrc", fmt |-> "tar", tf |-> "pbf", tc |-> "brotli"] >>
+    [id |-> "vpngg", fmt |-> "versatiles", tf |-> "png", tc |-> "gzip", kind |-> "prefix"],
+    [id |-> "vjpgb", fmt |-> "versatiles", tf |-> "jpg", tc |-> "brotli", kind |-> "suffix"],
+    [id |-> "twebpg", fmt |-> "tar", tf |-> "webp", tc |-> "gzip", kind |-> "prefix"],
+    [id |-> "mb", fmt |-> "mbtiles", tf |-> "pbf", tc |-> "gzip", kind |-> "plain"],
+    [id |-> "pm", fmt |-> "pmtiles", tf |-> "pbf", tc |-> "gzip", kind |-> "suffix"],
+    [id |-> "tarsrc", fmt |-> "tar", tf |-> "pbf", tc |-> "brotli", kind |-> "hash"],
+    \* ids that a client has to percent-encode in the request target
+    [id |-> "zürich", fmt |-> "versatiles", tf |-> "pbf", tc |-> "gzip", kind |-> "prefix"],
+    [id |-> "a b", fmt |-> "versatiles", tf |-> "pbf", tc |-> "none", kind |-> "hash"],
+    [id |-> "q\"x", fmt |-> "versatiles", tf |-> "pbf", tc |-> "none", kind |-> "prefix"] >>
+Sources == [i \in 1..Len(RawSources) |->
+              [id |-> RawSources[i].id, fmt |-> RawSources[i].fmt, tf |-> RawSources[i].tf, tc |-> RawSources[i].tc,
+               kind |-> RawSources[i].kind, sid |-> ServedId(RawSources[i].kind, RawSources[i].id, "c_" \o RawSources[i].id)]]
 Instances == << [fast |-> 0, flip |-> 0, swap |-> 0], [fast |-> 1, flip |-> 0, swap |-> 0],
                 [fast |-> 0, flip |-> 1, swap |-> 0], [fast |-> 1, flip |-> 1, swap |-> 1] >>
 
